@@ -32,7 +32,7 @@ RULE = (
     "messages after the roDelete); distinct = digest of the document list and mode.")
 ASSUMPTIONS = ['self-consistency oracle by design: the property is an equivalence between two API paths; '
                'absolute correctness of one step is C01-C06']
-MANDATORY = ['strict', 'non-strict', 'merge-called-twice', 'roCreate-not-lowest-id', 'source:strings', 'source:files', 'source:s3',
+MANDATORY = ['strict', 'non-strict', 'non-utf8-source', 'merge-called-twice', 'roCreate-not-lowest-id', 'source:strings', 'source:files', 'source:s3',
              'failing-message-not-last', 'messages-after-roDelete', 'several-failures', 'no-failure']
 
 
@@ -66,16 +66,24 @@ def build_collection(case, workdir):
     supplied = [docs[i] for i in order]
     if source == 'strings':
         return MosCollection.from_strings(supplied, allow_incomplete=True), None
+    def raw(n, d):
+        # every third document of a byte-oriented source in a declared non-UTF-8 encoding
+        enc = case.get('enc')
+        if enc and n % 3 == 0:
+            from checks.c08 import encoded, encodable
+            if encodable(d, enc):
+                return encoded(d, enc)
+        return d.encode('utf-8')
     if source == 'files':
         os.makedirs(workdir, exist_ok=True)
         paths = []
         for n, d in enumerate(supplied):
             p = os.path.join(workdir, f'f{n:03d}.mos.xml')
-            with open(p, 'w', encoding='utf-8') as f:
-                f.write(d)
+            with open(p, 'wb') as f:
+                f.write(raw(n, d))
             paths.append(p)
         return MosCollection.from_files(paths, allow_incomplete=True), None
-    fake = fakes3.FakeS3({'bkt': {f'pfx/k{n:03d}.mos.xml': d.encode('utf-8') for n, d in enumerate(supplied)}},
+    fake = fakes3.FakeS3({'bkt': {f'pfx/k{n:03d}.mos.xml': raw(n, d) for n, d in enumerate(supplied)}},
                          page_size=case.get('page_size', 3))
     with fake:
         mc = MosCollection.from_s3(bucket_name='bkt', prefix='pfx/', allow_incomplete=True)
@@ -177,13 +185,14 @@ def shrink(case, still):
 
 @st.composite
 def cases(draw):
-    col = draw(colgen.collection(max_msgs=10, faults=draw(st.sampled_from(['none', 'some', 'some', 'heavy']))))
+    col = draw(colgen.collection(max_msgs=10, faults=draw(st.sampled_from(['none', 'some', 'some', 'heavy'])),
+                                 rich=draw(st.integers(0, 2)) == 0))
     docs = col['docs']
     order = list(draw(gen.permutation(range(len(docs)))))
     return {'docs': docs, 'order': order, 'strict': draw(st.booleans()),
             'source': draw(st.sampled_from(['strings', 'strings', 'files', 's3'])),
             'page_size': draw(st.integers(1, 4)), 'has_delete': col['has_delete'],
-            'again': draw(st.integers(0, 3)) == 0}
+            'again': draw(st.integers(0, 3)) == 0, 'enc': draw(st.sampled_from([None, None, 'latin1', 'utf16']))}
 
 
 def shard(args):
@@ -208,11 +217,13 @@ def shard(args):
             classes.append('no-failure')
         if case['again']:
             classes.append('merge-called-twice')
+        if case.get('enc') and case['source'] != 'strings':
+            classes.append('non-utf8-source')
         mids_ = [MosFile.from_string(d).message_id for d in case['docs']]
         if mids_[0] != min(mids_):
             classes.append('roCreate-not-lowest-id')
         nontrivial = nmsg >= 3 and (not_last or after_delete)
-        col.record({k: case[k] for k in ('docs', 'order', 'strict', 'source', 'page_size', 'again')},
+        col.record({k: case[k] for k in ('docs', 'order', 'strict', 'source', 'page_size', 'again', 'enc')},
                    nontrivial, classes, judge_case(case),
                    key=h64(*case['docs'], case['strict'], case['source'], str(case['order'])))
     drive.run_given(cases(), one, n, seed)
